@@ -49,6 +49,8 @@ def flat_prog(
     same_qual_rate: float = 0.0,
     setup_dense: bool = False,
     short_name_rate: float = 0.0,
+    ret_index_rate: float = 0.0,
+    mutable_setup_rate: float = 0.0,
 ) -> Dict[str, Any]:
     """A call-only program: every statement is one call of a constructor function, depending on earlier
     sites through positional args / kwargs / activation flags.  Acyclic by construction."""
@@ -96,6 +98,8 @@ def flat_prog(
                 if draw(st.sampled_from([True, False, False, False])):
                     # a setup function may legitimately return None / a falsy value (e.g. it only warms a cache)
                     spec["kind"], spec["val"] = "const", draw(st.sampled_from([None, None, 0, "", False]))
+                elif mutable_setup_rate and chance(draw, mutable_setup_rate):
+                    spec["kind"] = "mlist"  # a mutable object (a model, a registry ...): here a list
             if i in debug_idx:
                 spec["debug"] = True
             if index_rate and i not in setup_idx and draw(st.floats(0, 1)) < index_rate:
@@ -184,7 +188,15 @@ def flat_prog(
             mark = False  # a true root of the graph: no constant marker argument either
         body.append({"k": "call", "fn": fn, "site": site(i), "mark": mark, "args": args, "kwargs": kwargs,
                      "active": active, "unpack": None, "tags": [], "out": f"v{i}"})
-    ret = ["T", [["v", f"v{i}"] for i in range(n)]]
+    ret_items: List[Any] = []
+    for i in range(n):
+        e: Any = ["v", f"v{i}"]
+        kind_i = fns[body[i]["fn"]].get("kind")
+        if ret_index_rate and body[i].get("active") is None and kind_i in ("tup", "dict") and chance(draw, ret_index_rate):
+            # the describing function returns a PART of this result (x[0], x["a"]): one entry per site all the same
+            e = ["i", e, 0] if kind_i == "tup" else ["i", e, "a"]
+        ret_items.append(e)
+    ret = ["T", ret_items]
     return {"name": name, "params": params, "fns": fns, "body": body, "ret": ret}
 
 
